@@ -68,7 +68,7 @@ def case_strategy(opts):
         kind, cache = draw(st.sampled_from(STORES))
         follow = draw(st.lists(st.sampled_from(["same", "other", "fail_other", "same"]), min_size=1, max_size=3))
         return {"prog": prog, "root": root, "style": style, "node": node, "node2": node2, "exc": draw(st.sampled_from(EXCS)),
-                "exc2": draw(st.sampled_from(EXCS)), "store": [kind, cache], "follow": follow}
+                "exc2": draw(st.sampled_from(EXCS)), "store": [kind, cache], "follow": follow, "no_debug": draw(st.integers(0, 3)) == 0}
 
     return gen()
 
@@ -192,6 +192,8 @@ def check_case(case, ev=None, scratch=None):
         sess.root = twin.root
         sess.prog = prog
         sess.start()
+        if case.get("no_debug"):
+            sess.w.call("call", module="dds", func="set_option", args=["extra_debug", False])
         all_paths = sorted({s_["path"] for (e_, st_) in G.entries(prog) for s_ in M.kept_sites(prog, e_)})
         committed = {}
         completed, stack, stored, succeeded = expect_failure(sess, case, prog, root, style, case["node"], case["exc"], sigs, set(), "first evaluation")
@@ -293,6 +295,86 @@ def pipeline():
 """
 
 
+FINALLY_SRC = """import dds
+import vlog
+
+
+def cleanup():
+    vlog.rec('cleanup')
+    return 'c'
+
+
+def inner():
+    vlog.rec('inner')
+    return 'i'
+
+
+def mid():
+    vlog.rec('mid')
+    try:
+        return dds.keep('/fin/inner', inner)
+    {clause}:
+        dds.keep('/fin/cleanup', cleanup){reraise}
+
+
+def pipeline():
+    vlog.rec('pipeline')
+    return dds.keep('/fin/mid', mid)
+"""
+
+
+def finally_strategy():
+    from hypothesis import strategies as st
+
+    return st.fixed_dictionaries({"finally": st.sampled_from(["finally", "except"]), "exc": st.sampled_from(EXCS), "store": st.sampled_from(STORES).map(list),
+                                  "no_debug": st.booleans()})
+
+
+def check_finally(case, ev=None, scratch=None):
+    """A waiting function keeps another result in its `finally` (or re-raising `except BaseException`) clause while the exception of
+    the function it was waiting for unwinds: that keep still belongs to the failing evaluation - nothing is committed."""
+    from ..harness import proc
+
+    own = scratch is None
+    scratch = scratch or common.Scratch("vf-c10")
+    root_dir, store_dir = scratch.sub(), scratch.sub()
+    clause = "finally" if case["finally"] == "finally" else "except BaseException"
+    src = FINALLY_SRC.format(clause=clause, reraise="" if case["finally"] == "finally" else "\n        raise")
+    for rel, content in {"pk/__init__.py": "", "pk/m0.py": src}.items():
+        p = os.path.join(root_dir, rel)
+        os.makedirs(os.path.dirname(p), exist_ok=True)
+        open(p, "w").write(content)
+    w = proc.Worker()
+    tag = f"[keep inside a {clause} clause while {case['exc']} unwinds, {case['store'][0]}, extra_debug={'off' if case['no_debug'] else 'default'}]"
+    paths = ["/fin/inner", "/fin/cleanup", "/fin/mid"]
+    try:
+        w.call("init", root=root_dir, accepted=["pk"], store={"kind": case["store"][0], "dir": store_dir, "cache": case["store"][1]})
+        if case["no_debug"]:
+            w.call("call", module="dds", func="set_option", args=["extra_debug", False])
+        r = w.call("eval", module="pk.m0", func="pipeline", style="eval", fail={"node": "inner", "exc": case["exc"]})
+        if r["exc"] is None:
+            raise Violation(f"{tag} inner raised but the evaluation returned {r['value']!r}", case)
+        if not r["exc"]["same_object"]:
+            raise Violation(f"{tag} another object came out of dds: {r['exc']['type']}: {r['exc']['msg'][:200]}", case)
+        if not r["ctx_clean"]:
+            raise Violation(f"{tag} dds is still inside an evaluation after the failure", case)
+        if r.get("synced"):
+            raise Violation(f"{tag} paths were committed although the evaluation failed: {[list(d) for d in r['synced']]}", case)
+        for p in paths:
+            l = w.call("load", path=p)
+            if l["exc"] is None:
+                raise Violation(f"{tag} after the failed evaluation the path {p} loads {l['value']!r} (it was committed)", case)
+        r = w.call("eval", module="pk.m0", func="pipeline", style="eval")
+        if r["exc"] is not None or r["value"] != "i":
+            raise Violation(f"{tag} the evaluation after the failure gave {r['exc'] or r['value']!r}", case)
+        if ev is not None:
+            ev.case(case, True, features=["keep-while-unwinding:" + case["finally"], "exc:" + case["exc"]] + (["extra_debug-off"] if case["no_debug"] else []))
+    finally:
+        w.close()
+        if own:
+            scratch.clean()
+
+
 def thread_strategy():
     from hypothesis import strategies as st
 
@@ -350,6 +432,8 @@ def shard(idx, n, tier, seed, count):
     opts = {"exclude": common.open_features(ID), "data_den": 2, "max_funcs": 8}
     try:
         v = common.hyp_drive(case_strategy(opts), lambda c: check_case(c, ev, scratch), seed * 1000 + 1000 + idx, count, ev)
+        if v is None and idx % 4 == 1:
+            v = common.hyp_drive(finally_strategy(), lambda c: check_finally(c, ev, scratch), seed * 1000 + 1070 + idx, 3 if tier == "quick" else 12, ev)
         if v is None and idx % 4 == 3:
             v = common.hyp_drive(thread_strategy(), lambda c: check_threads(c, ev, scratch), seed * 1000 + 1050 + idx, 3 if tier == "quick" else 12, ev)
     finally:
@@ -363,6 +447,8 @@ def run(tier, seed, scale=1.0):
 
 
 def replay(case):
+    if case.get("finally"):
+        return check_finally(case)
     if case.get("threads"):
         return check_threads(case)
     check_case(case)
